@@ -686,3 +686,7 @@
                             :pattern ((trig j))))))
 (define-fun set_buckets_ok ((m MapC<Int~Slice>)) Bool
   (forall ((k Int)) (! (=> (select (MapC<Int~Slice>.dom m) k) (slice.ok (select (MapC<Int~Slice>.val m) k))) :pattern ((select (MapC<Int~Slice>.val m) k)))))
+
+; big.Float.Text(format, prec): an uninterpreted function of the value (extended real, sign of zero), the
+; precision of the representation and the two arguments (C15/C16: which text leaves the encoders)
+(declare-fun num_textf (Int Real Bool Int Int Int) String)
